@@ -78,3 +78,20 @@ Proof.
   - apply hashjoin_semi_eq_nljoin; exact Hc.
   - apply hashjoin_anti_eq_nljoin; exact Hc.
 Qed.
+
+(** ** the hash semi / anti join with a residual condition (HashSemiJoinExecutor2) = the nested-loop semi / anti join on
+       the conjunction of the key equality and that condition *)
+Theorem hashsemi2_eq_nljoin anti eqc cond lk rk nr L R :
+  equi_cond eqc lk rk (concat L) (concat R) ->
+  Some (x_hashsemi2 anti lk rk cond L R) = x_nljoin (if anti then JAnti else JSemi) (SAnd eqc cond) nr L R.
+Proof.
+  intros Hc. unfold x_hashsemi2.
+  assert (E : forall l, In l (concat L) ->
+            existsb (fun r => negb (has_null (keys_of rk r)) && row_eqb (keys_of lk l) (keys_of rk r) && holds cond (l ++ r)) (concat R)
+            = existsb (fun r => holds (SAnd eqc cond) (l ++ r)) (concat R)).
+  { intros l Hl. apply existsb_ext_in. intros r Hr. rewrite holds_and, (Hc l r Hl Hr). f_equal. unfold keys_match.
+    destruct (row_eqb (keys_of lk l) (keys_of rk r)) eqn:Ee; [|rewrite !andb_false_r; reflexivity].
+    rewrite (row_eqb_has_null _ _ Ee). destruct (has_null (keys_of rk r)); reflexivity. }
+  destruct anti; unfold x_nljoin; f_equal; apply filter_ext_in; intros l Hl; rewrite (E l Hl);
+    destruct (existsb (fun r => holds (SAnd eqc cond) (l ++ r)) (concat R)); reflexivity.
+Qed.
